@@ -162,6 +162,18 @@ func (f namedFile) Read(p []byte) (int, error) { return f.s.Read(p) }
 func (f namedFile) Close() error               { f.s.closed++; return nil }
 func (f namedFile) Name() string               { return f.name }
 
+// seekReader is an io.Reader that can be repositioned; seekReadCloser is also an io.Closer.
+type seekReader struct{ s *stream }
+
+func (r seekReader) Read(p []byte) (int, error) { return r.s.Read(p) }
+func (r seekReader) Seek(offset int64, whence int) (int64, error) {
+	return seekFile{namedFile{s: r.s}}.Seek(offset, whence)
+}
+
+type seekReadCloser struct{ seekReader }
+
+func (r seekReadCloser) Close() error { r.s.closed++; return nil }
+
 // seekFile is a named source that can also be repositioned, as an *os.File can.
 type seekFile struct{ namedFile }
 
